@@ -346,6 +346,21 @@ MUTANTS = [
          old="                self.compile_chain(chain_node, pipe_register, None, None, call_context)?;\n            }", new="                return self.compile_chain(chain_node, pipe_register, None, None, call_context);\n            }", expect="V-codegen::Compiler::compile_piped_call::"),
     dict(name="codegen_pipe_value_not_piped", kind="break", prop="C01", units=["V-codegen"], file="crates/bytecode/src/compiler.rs",
          old="                self.compile_call(function_register, &[], pipe_register, None, call_context)?;\n                if function.is_temporary {", new="                self.compile_call(function_register, &[], None, None, call_context)?;\n                if function.is_temporary {", expect="V-codegen::Compiler::compile_piped_call::piped_value_first_then_the_call_into_the_result_register"),
+    # ---- V-adaptors2
+    dict(name="chunks_f35_capacity_is_the_chunk_size", kind="break", prop="C06", units=["V-adaptors2"], file="crates/runtime/src/core_lib/iterator/adaptors.rs",
+         old=".get_or_insert_with(|| Vec::with_capacity(capacity))", new=".get_or_insert_with(|| Vec::with_capacity(self.chunk_size))", expect="V-adaptors2::Chunks::next::chunk_buffer_allocatable"),
+    dict(name="windows_f35_capacity_is_the_window_size", kind="break", prop="C06", units=["V-adaptors2"], file="crates/runtime/src/core_lib/iterator/adaptors.rs",
+         old="cache: VecDeque::with_capacity(capacity),", new="cache: VecDeque::with_capacity(window_size),", expect="V-adaptors2::Windows::new::window_buffer_allocatable"),
+    dict(name="chunks_takes_one_too_many", kind="break", prop="C13", units=["V-adaptors2"], file="crates/runtime/src/core_lib/iterator/adaptors.rs",
+         old="for output in self.iter.clone().take(self.chunk_size) {", new="for output in self.iter.clone().take(self.chunk_size + 1) {", expect="V-adaptors2::Chunks::next::"),
+    dict(name="chunks_zero_size_accepted", kind="break", prop="C13", units=["V-adaptors2"], file="crates/runtime/src/core_lib/iterator/adaptors.rs",
+         old="        if chunk_size < 1 {\n            Err(ChunksError::ChunkSizeMustBeAtLeastOne)", new="        if chunk_size > usize::MAX - 1 {\n            Err(ChunksError::ChunkSizeMustBeAtLeastOne)", expect="V-adaptors2::Chunks::new::chunk_size_zero_is_an_error"),
+    dict(name="windows_does_not_slide", kind="break", prop="C13", units=["V-adaptors2"], file="crates/runtime/src/core_lib/iterator/adaptors.rs",
+         old="        self.cache.pop_front();\n\n        while self.cache.len() < self.window_size {", new="        while self.cache.len() < self.window_size {", expect="V-adaptors2::Windows::next::"),
+    dict(name="windows_yields_partial_window", kind="break", prop="C13", units=["V-adaptors2"], file="crates/runtime/src/core_lib/iterator/adaptors.rs",
+         old="        if self.cache.len() == self.window_size {\n            let result: Vec<_>", new="        if self.cache.len() > 0 {\n            let result: Vec<_>", expect="V-adaptors2::Windows::next::"),
+    dict(name="windows_quiet_len_compare", kind="quiet", prop="C13", units=["V-adaptors2"], file="crates/runtime/src/core_lib/iterator/adaptors.rs",
+         old="        if self.cache.len() == self.window_size {\n            let result: Vec<_>", new="        if self.cache.len() >= self.window_size {\n            let result: Vec<_>"),
     dict(name="bytecursor_next_back_front_byte", kind="break", prop="C13", units=["V-bytecursor"], file="crates/runtime/src/types/iterator.rs",
          old="let result = (self.bytes)[self.end];", new="let result = (self.bytes)[self.index];", expect="V-bytecursor::ByteIterator::next_back::yields_back_position"),
     dict(name="bytecursor_next_reads_after_advance", kind="break", prop="C13", units=["V-bytecursor"], file="crates/runtime/src/types/iterator.rs",
